@@ -69,14 +69,25 @@ def _r9(ctx):
     prog = ctx.prog
     ctx.rule("R-C11-9", floor=1, what="Gassner reference cycles are evaluated on the k_1 line extended below the endurance limit")
     base = prog.cls(MINER + ":MinerBase")
-    g = prog.lookup_method(base, "gassner_cycles")
-    cs = [c for c in calls_in(g.node) if isinstance(c.func, ast.Attribute) and c.func.attr in ("cycles", "basquin_cycles")]
-    if len(cs) != 1:
-        raise AnalysisError("gassner_cycles: reference cycles call not found")
-    recv = cs[0].func.value
-    if isinstance(recv, ast.Call) and isinstance(recv.func, ast.Attribute) and is_self_attr(recv.func, "miner_elementary"):
+    # the base implementation and every override in the hierarchy (a rule-specific override must use the same reference line)
+    impls = []
+    for ck in [base] + sorted(prog.subclasses(base.key), key=lambda x_: x_ if isinstance(x_, str) else x_.key):
+        c_ = prog.classes.get(ck) if isinstance(ck, str) else ck
+        if c_ is not None and "gassner_cycles" in c_.methods:
+            impls.append(c_.methods["gassner_cycles"][-1])
+    if not impls:
+        raise AnalysisError("gassner_cycles not found in the Miner classes")
+    for g in impls:
+      cs = [c for c in calls_in(g.node) if isinstance(c.func, ast.Attribute) and c.func.attr in ("cycles", "basquin_cycles")]
+      if len(cs) != 1:
+        if any(isinstance(c.func, ast.Attribute) and c.func.attr == "gassner_cycles" for c in calls_in(g.node)):
+            ctx.holds(g, g.node, "%s delegates to the inherited gassner_cycles" % g.qualname)
+            continue
+        raise AnalysisError("%s: reference cycles call not found" % g.qualname)
+      recv = cs[0].func.value
+      if isinstance(recv, ast.Call) and isinstance(recv.func, ast.Attribute) and is_self_attr(recv.func, "miner_elementary"):
         ctx.holds(g, cs[0], "reference cycles from self.miner_elementary().cycles(...): slope k_1 at every amplitude")
-    else:
+      else:
         ctx.violated(g, cs[0], "the reference cycles of the Gassner line are %s: evaluated on %s, whose slope below the endurance limit "
                      "is the curve's own k_2 (inf by default), so a collective scaled below SD gets infinite Gassner cycles and the "
                      "damage sum there is not one" % (norm_text(cs[0]), norm_text(recv)), text="reference curve " + norm_text(recv))
